@@ -121,7 +121,7 @@ def judge(ctx, case):
     try:
         with call_limit(240):
             R0 = oc.apply_op(op, lib.build(sa), lib.build(sb))
-            RT = oc.apply_op(op, lib.build(ta), lib.build(tb))
+            RT = oc.apply_op(op, oc.build_operand(ta, case.get("pre_a")), oc.build_operand(tb, case.get("pre_b")))
             viewT = oc.ResultView(RT)
             k0, kT = lib.kind_of(R0), lib.kind_of(RT)
             a0 = float(R0) if k0 not in ("empty", "whole") else 0.0
